@@ -47,6 +47,9 @@ class ExprMixin:
         return v
 
     def _mod_lookup(self, mod, name):
+        oc = getattr(self.d.contract, 'opaque_ctors', None) or {}
+        if name in oc:
+            return SBuiltin('ctor!' + name)
         g = self.d.contract.globals
         if name in g:
             return self.sym_cases_fixed(g[name], f'g.{name}')
@@ -380,9 +383,11 @@ class ExprMixin:
             if self.branch(bad):
                 raise PyRaise('TypeError', getattr(node, 'lineno', None), 'ordering with None')
         # integers compare as integers; other value pairs through the uninterpreted order of their column type
-        both_int = z3.And(Val.is_VInt(x), Val.is_VInt(y))
-        lt = z3.If(both_int, Val.i(x) < Val.i(y), val_lt(x, y))
-        gt = z3.If(both_int, Val.i(x) > Val.i(y), val_lt(y, x))
+        isnum = lambda v: z3.Or(Val.is_VInt(v), Val.is_VBool(v))
+        asint = lambda v: z3.If(Val.is_VInt(v), Val.i(v), z3.If(Val.b(v), 1, 0))
+        both_int = z3.And(isnum(x), isnum(y))
+        lt = z3.If(both_int, asint(x) < asint(y), val_lt(x, y))
+        gt = z3.If(both_int, asint(x) > asint(y), val_lt(y, x))
         return pick(lt, z3.Or(lt, x == y), gt, z3.Or(gt, x == y))
 
     # ---- arithmetic ----------------------------------------------------------
@@ -427,7 +432,9 @@ class ExprMixin:
             sa, sb = self.as_seq(a), self.as_seq(b)
             if sa.kind != sb.kind and not self.specmode:
                 raise PyRaise('TypeError', ln, 'list + tuple')
-            return SSeq(z3.Concat(sa.t, sb.t), sa.kind, sa.elem)
+            r = z3.Concat(sa.t, sb.t)
+            self.seq_facts('concat', r, sa.t, sb.t)
+            return SSeq(r, sa.kind, sa.elem)
         if isinstance(a, (SSeq, STuple)) and isinstance(b, num) and isinstance(op, ast.Mult):
             sa = self.as_seq(a)
             n = self.as_int(b)
@@ -447,7 +454,14 @@ class ExprMixin:
             return STd(a.t - b.t)
         if isinstance(a, SDyn) or isinstance(b, SDyn):
             nm = 'val_' + type(op).__name__.lower()
-            return SDyn(uf(nm, Val, Val, Val)(self.to_val(a), self.to_val(b)))
+            x, y = self.to_val(a), self.to_val(b)
+            generic = uf(nm, Val, Val, Val)(x, y)
+            if isinstance(op, (ast.Add, ast.Sub)):
+                # integers add as integers; other operand kinds through the uninterpreted operator of their type
+                ints = z3.And(Val.is_VInt(x), Val.is_VInt(y))
+                r = Val.i(x) + Val.i(y) if isinstance(op, ast.Add) else Val.i(x) - Val.i(y)
+                return SDyn(z3.If(ints, Val.VInt(r), generic))
+            return SDyn(generic)
         if isinstance(a, SStr) and isinstance(op, ast.Mod):
             raise Unsupported('%-formatting')
         raise Unsupported(f'binop {type(op).__name__} on {a!r}, {b!r}')
@@ -474,7 +488,10 @@ class ExprMixin:
         L = z3.Length(seq.t)
         a = self.clamp(lo, L, z3.IntVal(0))
         b = self.clamp(hi, L, L)
-        return SSeq(z3.SubSeq(seq.t, a, z3.If(b - a > 0, b - a, 0)), seq.kind, seq.elem)
+        n = z3.If(b - a > 0, b - a, 0)
+        r = z3.SubSeq(seq.t, a, n)
+        self.seq_facts('extract', r, seq.t, a, n)
+        return SSeq(r, seq.kind, seq.elem)
 
     def eval_slice(self, fr, sl):
         lo = self.eval(fr, sl.lower) if sl.lower is not None else NONE
